@@ -355,6 +355,8 @@ class FmModels(Models):
         r = self.vector_call(ip, st, S, args, dty)
         if r is not NotImplemented:
             return r
+        if S(r"(Point|Compressed\w+) as subtle::ConstantTimeEq>::ct_eq$|impl subtle::ConstantTimeEq for [\w:]*(Point|Compressed\w+)>::ct_eq$"):
+            return NotImplemented       # the repository's own point comparisons are interpreted, not summarised by the generic ct_eq model
         return super().call(ip, fv, st, depth, t, n, args, dty)
 
     # ------------------------------------------------------------------ AVX2: FieldElement2625x4 = four field elements (lanes A, B, C, D)
